@@ -71,6 +71,7 @@ def check(ctx, rep):
                 if total % 997 == 1:
                     rep.sample({"rule": "T-SAT", "class": key, "extracted": val, "reference": exp, "example": ex})
     rep.analysed_item("range::BoundSet::satisfies interpreted on %d realisable gate valuations over 9 bound shapes" % total)
+    range_satisfies(ctx, rep, prog, env)
     rep.notes.append("build metadata: the abstract versions of this table have no `build` field; any read of it would make "
                      "the analysis inconclusive. Version::eq/cmp/hash ignoring build is decided by C04.")
 
@@ -85,3 +86,93 @@ def _example(lo, up, vers):
     if up != "U":
         parts.append(("<=" if up == "I" else "<") + vs(vers["U"]))
     return "%s satisfies? %s" % (" ".join(parts) or "*", vs(vers["V"]))
+
+
+ALT_SHAPES = [("exact", "I", "I"), ("from", "I", "U"), ("below", "U", "E")]
+
+
+def _alt_sets(kind, tok):
+    """(lower bound, upper bound) of a one-token alternative"""
+    name, lo, up = kind
+    return (("L", lo, tok if lo != "U" else None), ("U", up, tok if up != "U" else None))
+
+
+def _ref_alt(kind, t, v):
+    name, lo, up = kind
+    toks = {"V": v}
+    if lo != "U":
+        toks["L"] = t
+    if up != "U":
+        toks["U"] = t
+    return ref_sat((lo, up), toks)
+
+
+def _rsat_worker(args):
+    prog, env = _RS["prog"], _RS["env"]
+    out = []
+    for (ka, kb, sig, toks_order) in args:
+        ranks, pre, parts = sig
+        tk = {}
+        for i, t in enumerate(toks_order):
+            tk[t] = V.gate_token(t, ranks[i], pre[i], tuple(p[i] for p in parts), prog)
+        alts = [(ka, tk["L"])] + ([(kb, tk["U"])] if kb is not None else [])
+        sets = [intervals.build_set(env, _alt_sets(k, t)) for k, t in alts]
+        from ..interp import Adt, ListV
+        R = Adt("range::Range", 0, (ListV(sets),))
+        run = intervals.Run(prog, env)
+        st, val = run.call("range::Range::satisfies", [Ptr(Cell(R)), Ptr(Cell(tk["V"]))])
+        exp = any(_ref_alt(k, t, tk["V"]) for k, t in alts)
+        key = "alternatives=%s order:%s pre:%s same-tuple:%s" % (
+            "+".join(k[0] for k, _ in alts), intervals.order_str({t: tk[t].val for t in toks_order}),
+            ",".join("%s=%s" % (t, "y" if tk[t].extra["pre"] else "n") for t in toks_order),
+            ",".join("".join(str(c) for c in p) for p in parts))
+        out.append((key, st, val if st == "ok" else str(val), exp, path_sig(run.interp),
+                    (val.reason, val.where) if st == "inconclusive" else None))
+    return out
+
+
+_RS = {}
+
+
+def range_satisfies(ctx, rep, prog, env):
+    """R-SAT: Range::satisfies on one or two one-token alternatives (an exact version, `>=t`, `<t`) over every
+    realisable valuation of the gate atoms of (V, t1, t2): the answer is the OR of the per-alternative answers —
+    in particular a prerelease tag in one alternative never opens the gate for another alternative's bounds."""
+    import multiprocessing as mp
+    import os
+    rule = "R-SAT"
+    rep.rule(rule, 5000, "Range::satisfies = OR over alternatives of (within that alternative's bounds AND its own gate)")
+    jobs = []
+    t1, w1 = V.gate_worlds(["V", "L"])
+    for ka in ALT_SHAPES:
+        for sig in w1:
+            jobs.append((ka, None, sig, t1))
+    t2, w2 = V.gate_worlds(["V", "L", "U"])
+    sigs2 = list(w2)
+    if not ctx.thorough:
+        sigs2 = sigs2[::2]
+    for ka in ALT_SHAPES:
+        for kb in ALT_SHAPES:
+            for sig in sigs2:
+                jobs.append((ka, kb, sig, t2))
+    _RS.update(prog=prog, env=env)
+    procs = min(16, os.cpu_count() or 1)
+    n = max(1, len(jobs) // (procs * 8))
+    chunks = [jobs[i:i + n] for i in range(0, len(jobs), n)]
+    with mp.get_context("fork").Pool(procs) as pool:
+        res = pool.map(_rsat_worker, chunks)
+    for part in res:
+        for key, st, val, exp, sig, inc in part:
+            rep.path((rule, sig))
+            if st == "inconclusive":
+                rep.inconc("%s: %s" % (rule, inc[0]), inc[1])
+            elif st == "panic":
+                rep.fail(rule, "range::Range::satisfies|%s|panic" % rule, "panics: %s (%s)" % (val, key))
+            elif val == exp:
+                rep.ok(rule)
+            else:
+                coarse = key.split(" order:")[0]
+                rep.fail(rule, "range::Range::satisfies|%s|%s" % (rule, coarse),
+                         "answered %s, the OR of the alternatives' own answers is %s (%s)" % (val, exp, key),
+                         example=">=1.0.0 <2.0.0 || 1.5.0-alpha  vs  1.5.0-beta")
+    rep.analysed_item("range::Range::satisfies interpreted on %d (alternative shapes, gate valuation) cases" % len(jobs))
